@@ -10,6 +10,9 @@ def main(argv):
     prop, path = argv[:2]
     d = json.loads(open(path).read())
     case = d.get("case", d)
+    from .common import install_speedups
+
+    install_speedups()
     mod = importlib.import_module(f"vf.props.{prop}")
     try:
         res = mod.replay(case)
